@@ -139,6 +139,53 @@ Proof.
   - now rewrite sna_notnode.
 Qed.
 
+(* graph.nodes[n].pop(k, None): the same facts for the removal of an attribute *)
+Lemma dna_notnode st n k : ~ is_node st n -> del_node_attr st n k = st.
+Proof.
+  intros H. unfold del_node_attr. destruct (lookup n (nodes (g st))) as [d|] eqn:E; [|reflexivity].
+  exfalso. apply H. apply is_node_lookup. now exists d.
+Qed.
+Lemma dna_node_ids st n k : node_ids (del_node_attr st n k) = node_ids st.
+Proof.
+  unfold del_node_attr, node_ids. destruct (lookup n (nodes (g st))) as [d|] eqn:E; [|reflexivity].
+  cbn. apply keys_set_in. eapply lookup_Some_keys; eauto.
+Qed.
+Lemma dna_succs st n k : succs (g (del_node_attr st n k)) = succs (g st).
+Proof. unfold del_node_attr. destruct (lookup n (nodes (g st))); reflexivity. Qed.
+Lemma dna_bk st n k : bk (del_node_attr st n k) = bk st.
+Proof. unfold del_node_attr. destruct (lookup n (nodes (g st))); reflexivity. Qed.
+Lemma dna_ft st n k : ft (del_node_attr st n k) = ft st.
+Proof. unfold del_node_attr. destruct (lookup n (nodes (g st))); reflexivity. Qed.
+Lemma dna_seg st n k : seg (del_node_attr st n k) = seg st.
+Proof. unfold del_node_attr. destruct (lookup n (nodes (g st))); reflexivity. Qed.
+Lemma dna_node_attrs_other st n k m : m <> n -> node_attrs (del_node_attr st n k) m = node_attrs st m.
+Proof.
+  intros H. unfold del_node_attr, node_attrs. destruct (lookup n (nodes (g st))) as [d|]; [|reflexivity].
+  cbn. now apply getd_set_neq.
+Qed.
+Lemma dna_node_attrs_same st n k : is_node st n -> node_attrs (del_node_attr st n k) n = del k (node_attrs st n).
+Proof.
+  intros H. apply is_node_lookup in H. destruct H as [d E]. unfold del_node_attr, node_attrs. rewrite E. cbn.
+  rewrite getd_set_eq. unfold getd. now rewrite E.
+Qed.
+Lemma dna_attr_same st n k : is_node st n -> attr (del_node_attr st n k) n k = None.
+Proof. intros H. unfold attr. rewrite dna_node_attrs_same by exact H. apply lookup_del_eq. Qed.
+Lemma dna_attr_other st n k m k' : (m <> n \/ k' <> k) -> attr (del_node_attr st n k) m k' = attr st m k'.
+Proof.
+  intros H. destruct (Z.eq_dec m n) as [->|Hm].
+  - destruct H as [H|H]; [contradiction|]. destruct (in_dec Z.eq_dec n (node_ids st)) as [Hi|Hi].
+    + unfold attr. rewrite dna_node_attrs_same by exact Hi. now apply lookup_del_neq.
+    + now rewrite dna_notnode.
+  - unfold attr. now rewrite dna_node_attrs_other.
+Qed.
+Lemma dna_attrs_nodup st n k m : NoDup (keys (node_attrs st m)) -> NoDup (keys (node_attrs (del_node_attr st n k) m)).
+Proof.
+  intros H. destruct (Z.eq_dec m n) as [->|Hm]; [|now rewrite dna_node_attrs_other].
+  destruct (in_dec Z.eq_dec n (node_ids st)) as [Hi|Hi].
+  - rewrite dna_node_attrs_same by exact Hi. now apply NoDup_keys_del.
+  - now rewrite dna_notnode.
+Qed.
+
 (* ---- "st' is st with some attributes of node n, at keys in K, rewritten" ---- *)
 Record attr_upd (st st' : state) : Prop := {
   au_ids : node_ids st' = node_ids st;
@@ -159,6 +206,11 @@ Proof.
   constructor; [apply sna_node_ids|apply sna_succs|apply sna_bk|apply sna_ft|apply sna_seg|].
   intros m. apply sna_attrs_nodup.
 Qed.
+Lemma attr_upd_dna st n k : attr_upd st (del_node_attr st n k).
+Proof.
+  constructor; [apply dna_node_ids|apply dna_succs|apply dna_bk|apply dna_ft|apply dna_seg|].
+  intros m. apply dna_attrs_nodup.
+Qed.
 Lemma attr_upd_is_node st st' n : attr_upd st st' -> (is_node st' n <-> is_node st n).
 Proof. intros H. unfold is_node. now rewrite (au_ids _ _ H). Qed.
 Lemma attr_upd_successors st st' u : attr_upd st st' -> successors st' u = successors st u.
@@ -175,6 +227,14 @@ Proof.
   intros HK. split; [apply attr_upd_sna|]. intros m k' H. apply sna_attr_other.
   destruct H as [H|H]; [now left|right; intros ->; contradiction].
 Qed.
+Lemma upd_at_dna n (K : Z -> Prop) st k : K k -> upd_at n K st (del_node_attr st n k).
+Proof.
+  intros HK. split; [apply attr_upd_dna|]. intros m k' H. apply dna_attr_other.
+  destruct H as [H|H]; [now left|right; intros ->; contradiction].
+Qed.
+(* UpdateNodeAttrs._apply: a None value removes the attribute, any other value is stored *)
+Lemma upd_at_apply n (K : Z -> Prop) st kv : K (fst kv) -> upd_at n K st (apply_attr st n kv).
+Proof. intros HK. unfold apply_attr. destruct (snd kv); first [now apply upd_at_dna | now apply upd_at_sna]. Qed.
 Lemma upd_at_weaken n (K K' : Z -> Prop) a b : (forall k, K k -> K' k) -> upd_at n K a b -> upd_at n K' a b.
 Proof. intros H [A B]. split; [exact A|]. intros m k [Hm|Hk]; apply B; [now left|right; auto]. Qed.
 
@@ -196,6 +256,16 @@ Proof.
   - injection E as ->. destruct (set_attrs_upd_at (set_node_attr st n k1 v) n r) as [_ F]. unfold set_attrs in F.
     rewrite F by (right; exact Hk). now apply sna_attr_same.
   - apply IH; [|exact Hr|exact E]. unfold is_node. now rewrite sna_node_ids.
+Qed.
+
+(* for key, value in attrs.items(): UpdateNodeAttrs._apply *)
+Definition apply_attrs st n (a : attrs) : state := fold_left (fun s kv => apply_attr s n kv) a st.
+Lemma apply_attrs_upd_at st n a : upd_at n (fun k => In k (keys a)) st (apply_attrs st n a).
+Proof.
+  unfold apply_attrs. revert st. induction a as [|[k v] r IH]; intros st; cbn [fold_left]; [apply upd_at_refl|].
+  eapply upd_at_trans.
+  - apply (upd_at_apply n (fun k' => In k' (keys ((k, v) :: r))) st (k, v)). cbn. now left.
+  - eapply upd_at_weaken; [|apply IH]. cbn. intros k' H. now right.
 Qed.
 
 (* RegionpropsAnnotator.update *)
@@ -407,7 +477,7 @@ Proof.
     assert (existsb (fun kv => memz (fst kv) (protected_keys st)) new = true); [|congruence].
     apply existsb_exists. exists kv. split; [exact Hkv|now apply memz_In]. }
   destruct (lookup n (nodes (g st))) as [d|].
-  - intros H. inversion H; subst. split; [exact Hk|apply set_attrs_upd_at].
+  - intros H. inversion H; subst. split; [exact Hk|apply apply_attrs_upd_at].
   - destruct new; [|discriminate]. intros H. inversion H; subst. split; [exact Hk|apply upd_at_refl].
 Qed.
 Lemma upd_attrs_frame st n new b st' :
